@@ -37,6 +37,7 @@ import (
 //	  d<u>.<len>.<seed>  user u sends a datagram to the public port; wait until the peer has it
 //	  D<u>.<len>.<seed>  the same without waiting (burst; the next waiting token collects)
 //	  r<u>.<len>.<seed>  the peer sends a reply addressed to user u on the current work connection; wait until u has it
+//	  R<u>.<len>.<seed>  the same without waiting (burst of replies; the next waiting token collects)
 //	  n<u>.<len>.<seed>  the peer sends a UDPPacket WITHOUT remote address (nobody may get it)
 //	  b<u>.<len>.<seed>  the peer sends a UDPPacket for user u whose content is not base64 (nobody may get it)
 //	  p                  the peer sends a Ping on the current work connection
@@ -354,6 +355,30 @@ func runSpx(ps int, enc, comp bool, k int, script []string) (string, bool) {
 		defer run.mu.Unlock()
 		return len(run.w) > sentN || run.bad > 0
 	}
+	// replies sent without waiting (R) are collected here: every user has what was sent to it
+	repliesIn := func() bool {
+		umu.Lock()
+		defer umu.Unlock()
+		for u := range expectU {
+			if len(uLog[u]) < expectU[u] {
+				return false
+			}
+		}
+		return true
+	}
+	collectReplies := func() {
+		if !sudpWaitFor(repliesIn, patience) {
+			missing = true
+			umu.Lock()
+			for u := range expectU {
+				if len(uLog[u]) < expectU[u] {
+					expectU[u] = len(uLog[u])
+				}
+			}
+			umu.Unlock()
+			patience = 100 * time.Millisecond
+		}
+	}
 	syncUp := func() {
 		if !sudpWaitFor(arrived, patience) {
 			missing = true
@@ -363,6 +388,7 @@ func runSpx(ps int, enc, comp bool, k int, script []string) (string, bool) {
 			patience = 30 * time.Millisecond
 		}
 		pending = map[int]bool{}
+		collectReplies()
 	}
 	current := func() (io.ReadWriteCloser, net.Conn, int) {
 		run.mu.Lock()
@@ -380,6 +406,18 @@ func runSpx(ps int, enc, comp bool, k int, script []string) (string, bool) {
 			if t[0] == 'd' {
 				syncUp()
 			}
+		case t[0] == 'R':
+			// a reply of a burst: written behind the previous one, nobody waits
+			f := strings.Split(t[1:], ".")
+			u, ln, seed := atoi(f[0]), atoi(f[1]), atoi(f[2])
+			cur, _, _ := current()
+			if cur == nil {
+				continue
+			}
+			if err := msg.WriteMsg(cur, udp.NewUDPPacket(tunnelReply(tunnelPayload(u, i, ln, seed)), nil, userAddr(u))); err != nil {
+				continue
+			}
+			expectU[u]++
 		case t[0] == 'r' || t[0] == 'n' || t[0] == 'b':
 			syncUp()
 			f := strings.Split(t[1:], ".")
@@ -391,10 +429,10 @@ func runSpx(ps int, enc, comp bool, k int, script []string) (string, bool) {
 			pl := tunnelReply(tunnelPayload(u, i, ln, seed))
 			switch t[0] {
 			case 'n':
-				_ = msg.WriteMsg(cur, &msg.UDPPacket{Content: base64.StdEncoding.EncodeToString(pl)})
+				_ = msg.WriteMsg(cur, udp.NewUDPPacket(pl, nil, nil))
 				continue
 			case 'b':
-				_ = msg.WriteMsg(cur, &msg.UDPPacket{Content: "!*" + base64.StdEncoding.EncodeToString(pl), RemoteAddr: userAddr(u)})
+				_, _ = cur.Write(udpRawFrame("!*"+base64.StdEncoding.EncodeToString(pl), nil, userAddr(u)))
 				continue
 			}
 			if err := msg.WriteMsg(cur, udp.NewUDPPacket(pl, nil, userAddr(u))); err != nil {
@@ -496,8 +534,9 @@ func spxExec(tok []string) string {
 	// a datagram legitimately lost by the kernel must not alarm: when something is missing the same op is run
 	// again (on a fresh proxy of the same frps)
 	res, missing := runSpx(ps, enc, comp, k, script)
-	if missing {
-		res, _ = runSpx(ps, enc, comp, k, script)
+	if udpRerunWorthIt(missing) {
+		res, missing = runSpx(ps, enc, comp, k, script)
+		udpRerunDone(missing)
 	}
 	return res
 }
@@ -506,11 +545,22 @@ func spxExec(tok []string) string {
 
 // spxGenScript: traffic of k users interleaved with replies, pings, packets without address / with undecodable
 // content, and loss of the work connection of three kinds at arbitrary points — while idle (1 to 3 in a row,
-// single datagrams afterwards) and under traffic (right after a burst).
-func spxGenScript(rng *rand.Rand, ps, k, ntok, maxLen int) string {
-	toks := make([]string, 0, ntok+8)
-	dg := func(c string) {
-		toks = append(toks, fmt.Sprintf("%s%d.%d.%d", c, rng.Intn(k), sudpGenLen(rng, ps, maxLen), rng.Intn(1<<30)))
+// single datagrams afterwards) and under traffic (right after a burst) —, and `bursts` long bursts (20 to 100
+// datagrams / replies back to back).
+func spxGenScript(rng *rand.Rand, ps, k, ntok, maxLen, bursts int) string {
+	segs := make([][]string, 0, ntok+8)
+	count := 0
+	var cur []string
+	dgl := func(c string, u, ln int) {
+		cur = append(cur, fmt.Sprintf("%s%d.%d.%d", c, u, ln, rng.Intn(1<<30)))
+	}
+	dg := func(c string) { dgl(c, rng.Intn(k), sudpGenLen(rng, ps, maxLen)) }
+	flush := func() {
+		if len(cur) > 0 {
+			segs = append(segs, cur)
+			count += len(cur)
+			cur = nil
+		}
 	}
 	killW, hotW := 8, 4
 	switch rng.Intn(4) {
@@ -519,13 +569,13 @@ func spxGenScript(rng *rand.Rand, ps, k, ntok, maxLen int) string {
 	case 1: // flapping connection
 		killW, hotW = 16, 8
 	}
-	for len(toks) < ntok {
+	for count < ntok {
 		r := rng.Intn(100)
 		switch {
 		case r < killW:
 			// 1 to 3 replacements in a row while nothing is in flight, then single datagrams
 			for j, n := 0, 1+rng.Intn(3); j < n; j++ {
-				toks = append(toks, pick(rng, []string{"x", "x", "y", "z"}))
+				cur = append(cur, pick(rng, []string{"x", "x", "y", "z"}))
 			}
 			for j, n := 0, 1+rng.Intn(4); j < n; j++ {
 				dg("d")
@@ -535,9 +585,9 @@ func spxGenScript(rng *rand.Rand, ps, k, ntok, maxLen int) string {
 			for j, n := 0, 1+rng.Intn(5); j < n; j++ {
 				dg("D")
 			}
-			toks = append(toks, pick(rng, []string{"X", "X", "Y"}))
+			cur = append(cur, pick(rng, []string{"X", "X", "Y"}))
 		case r < killW+hotW+3:
-			toks = append(toks, "p")
+			cur = append(cur, "p")
 		case r < killW+hotW+3+5:
 			dg(pick(rng, []string{"n", "n", "b"}))
 		case r < killW+hotW+3+5+15:
@@ -549,6 +599,40 @@ func spxGenScript(rng *rand.Rand, ps, k, ntok, maxLen int) string {
 				dg("d")
 			}
 		}
+		flush()
+	}
+	// bursts of 20 to 100 distinct payloads, at arbitrary points between the segments above: datagrams back to back on
+	// the public port (one user, the users in turn, arbitrary users; the length changes from datagram to datagram)
+	// and replies back to back on the work connection; the token behind a burst collects it
+	for b := 0; b < bursts; b++ {
+		g, bmax := burstShape(rng, ps)
+		if bmax > maxLen {
+			bmax = maxLen
+		}
+		kind := pick(rng, []string{"D", "D", "R"})
+		mode, u0 := rng.Intn(3), rng.Intn(k)
+		ln := sudpGenLen(rng, ps, bmax)
+		for i := 0; i < g; i++ {
+			u := u0
+			switch mode {
+			case 1:
+				u = (u0 + i) % k
+			case 2:
+				u = rng.Intn(k)
+			}
+			if rng.Intn(4) != 0 {
+				ln = sudpGenLen(rng, ps, bmax)
+			}
+			dgl(kind, u, ln)
+		}
+		dgl(strings.ToLower(kind), rng.Intn(k), sudpGenLen(rng, ps, bmax))
+		at := rng.Intn(len(segs) + 1)
+		segs = append(segs[:at], append([][]string{cur}, segs[at:]...)...)
+		cur = nil
+	}
+	var toks []string
+	for _, sg := range segs {
+		toks = append(toks, sg...)
 	}
 	return strings.Join(toks, ",")
 }
@@ -566,7 +650,16 @@ func spxGen(rng *rand.Rand, n int, emit func(string)) {
 		case 2, 3:
 			ps, maxLen = 1500, 200
 		}
-		emit(fmt.Sprintf("spx ps=%d enc=%d comp=%d k=%d s=%s", ps, rng.Intn(2), rng.Intn(2), k,
-			spxGenScript(rng, ps, k, 10+rng.Intn(30), maxLen)))
+		// the four encryption x compression settings in turn, then arbitrary ones; every second script carries bursts
+		enc, comp := i>>1&1, i&1
+		if i >= 4 {
+			enc, comp = rng.Intn(2), rng.Intn(2)
+		}
+		bursts := 0
+		if i%2 == 0 {
+			bursts = 1 + rng.Intn(2)
+		}
+		emit(fmt.Sprintf("spx ps=%d enc=%d comp=%d k=%d s=%s", ps, enc, comp, k,
+			spxGenScript(rng, ps, k, 10+rng.Intn(30), maxLen, bursts)))
 	}
 }
